@@ -86,9 +86,12 @@ def run(ctx):
     # cross-back-end agreement is implied by agreement with the exact value; record the worst figures
     ctx.hypotheses['worst observed difference (units of 2^-32)'] = {k: v for k, v in sorted(worst.items())}
     ctx.cov['operations_per_backend'] = len(cases); ctx.cov['backends'] = ['%s/%s' % k for k in exes]
+    # allocation failures inside the FFT products: reported (exception / dead process) or harmless, never a silent wrong product
+    vlib.allocfail_block(ctx, [(fn, 1024, 1, 2, 8) for fn in (3, 4, 5)], backends=vlib.BACKENDS if ctx.tier == 'thorough' else ('spqlios-fma', 'nayuki-portable', 'fftw'))
     ctx.sample({k: v for k, v in list(sorted(worst.items()))[:10]})
 
 def replay(ctx, data):
+    if data.get('tool') == 'allocfail': return vlib.allocfail_replay(data)
     be = data.get('backend', 'spqlios-fma'); bu = data.get('build', 'optim')
     if 'case' not in data: print(json.dumps(data, indent=1)[:2000]); return 0
     exe = vlib.build_harness('fft_drv.cpp', vlib.build_lib(bu), be, bu)
